@@ -216,3 +216,22 @@ fn test_import_target_must_be_a_name() {
         "x"
     );
 }
+
+#[test]
+fn test_loop_recursion_in_a_loop_with_else_block() {
+    // the flag for the else block of the recursion level must not end up in the caller's expression
+    assert_eq!(
+        render(
+            "{% for x in [[1, 2], 3] recursive %}<{{ 'a' ~ loop(x) if x is iterable else x }}>{% else %}E{% endfor %}"
+        )
+        .unwrap(),
+        "<a<1><2>><3>"
+    );
+    assert_eq!(
+        render(
+            "{% for x in [[1], 2] recursive %}{{ [0, loop(x)] if x is iterable else x }}{% else %}E{% endfor %}"
+        )
+        .unwrap(),
+        "[0, '1']2"
+    );
+}
